@@ -15,6 +15,8 @@ def jop (j : Json) : R (Op String) := do
   | [.str "merge", a, b] => pure (.merge (← jstr a) (← jstr b))
   | [.str "clean"] => pure .removeEmpty
   | [.str "unseen", o] => pure (.addUnseen (← jgroups o))
+  | [.str "rescue_update", o] => pure (.updateRescued (← jgroups o))
+  | [.str "connected", cs, _] => pure (.mergeComponents (← jgroups cs))
   | [.str "group", p, c] => pure (.getGroup (← jstr p) (← jbool c))
   | [.str "idx", p, c] => pure (.getIdx (← jstr p) (← jbool c))
   | [.str "idxs", ps, c] => pure (.getIdxs (← jstrs ps) (← jbool c))
@@ -60,8 +62,78 @@ def handlePg (j : Json) : R Json := do
   let tr := trace pg0 ops
   pure (obj [("steps", PgFdr.ofList (fun (r : PG String × Out String) => obj (("out", ofOut r.2) :: ofState r.1)) tr)])
 
+/-- the state of a history over several live collections: the collections and the obsolete groups the
+    last `merge_with_rescued_protein_groups` left in the grouping object (consumed by
+    `rescue_update_last`) -/
+structure Multi where
+  states : List (PG String)
+  lastObs : List (List String)
+
+def prefixed (l : List (Nat × List String)) : List (List String) :=
+  l.map (fun x => x.2.map (fun p => "OBSOLETE__" ++ p))
+
+/-- the operation of the model for one tagged call; calls that involve a second collection or the
+    grouping object's memory are resolved here: the model runs INDEPENDENT states, one per collection -/
+def resolve (m : Multi) (rest : List Json) : R (Op String × Bool × Bool) :=
+  match rest with
+  | [.str "unseen_from", j] => do
+    let j ← jnat j
+    match m.states[j]? with
+    | some other => pure (.addUnseen other.groups, true, false)
+    | none => .error s!"no collection {j}"
+  | [.str "rescue_update_last"] => pure (.updateRescued m.lastObs, false, true)
+  | [.str "rescue_update", o] => do  -- overwrites (and consumes) what the grouping object remembered
+    pure (.updateRescued (← jgroups o), false, true)
+  | _ => do
+    let op ← jop (.arr rest.toArray)
+    pure (op, false, false)
+
+def stepMulti (m : Multi) (j : Json) : R (Multi × Out String) := do
+  let a ← jarr j
+  match a with
+  | k :: rest =>
+    let k ← jnat k
+    match m.states[k]? with
+    | none => .error s!"no collection {k}"
+    | some pg =>
+      let (op, setsObs, usesObs) ← resolve m rest
+      let r := step pg op
+      let lastObs := match r.2 with
+        | .obsolete l => if setsObs then prefixed l else m.lastObs
+        | _ => if usesObs then [] else m.lastObs
+      pure ({ states := m.states.set k r.1, lastObs := lastObs }, r.2)
+  | [] => .error "empty operation"
+
+def traceMulti (m : Multi) : List Json → R (List (Multi × Out String))
+  | [] => pure []
+  | j :: js => do
+    let r ← stepMulti m j
+    let rest ← traceMulti r.1 js
+    pure (r :: rest)
+
+def jcoll (j : Json) : R (PG String) := do
+  let gs ← match jgetOpt j "init" with
+    | some (.null) => pure []
+    | some g => jgroups g
+    | none => pure []
+  let fromList ← match jgetOpt j "from_list" with
+    | some (.null) => pure false
+    | some b => jbool b
+    | none => pure false
+  pure (if fromList then C20.ofList gs else { (init : PG String) with groups := gs })
+
+/-- `{"op":"pg2","colls":[{"init":[[…]…]?,"from_list":bool?}…],"ops":[[k,name,args…]…]}` →
+    `{"steps":[{"out":…,"states":[{"groups":…,"valid":…,"index":…}…]}…]}`: every call acts on the
+    collection `k`; all collections are reported after every call -/
+def handlePg2 (j : Json) : R Json := do
+  let colls ← jlist jcoll (← jget j "colls")
+  let ops ← jarr (← jget j "ops")
+  let tr ← traceMulti { states := colls, lastObs := [] } ops
+  pure (obj [("steps", PgFdr.ofList (fun (r : Multi × Out String) =>
+    obj [("out", ofOut r.2), ("states", PgFdr.ofList (fun pg => obj (ofState pg)) r.1.states)]) tr)])
+
 end C20D
 
 /-- protocol handlers of property C20: (op name, handler) -/
-def handlersC20 : List (String × (Json → R Json)) := [("pg", C20D.handlePg)]
+def handlersC20 : List (String × (Json → R Json)) := [("pg", C20D.handlePg), ("pg2", C20D.handlePg2)]
 end PgFdr.Driver
